@@ -200,11 +200,22 @@ func (g *gen) observe(st *Node, v *vinfo) *Node {
 func (g *gen) stSide() *Node {
 	for tries := 0; tries < 3; tries++ {
 		var n *Node
-		w := []int{25, 25, 15, 12, 15, 8, 10, 14, 10, 10, 8, 16, 14, 8, 12, 0}
+		w := []int{25, 25, 15, 12, 15, 8, 10, 14, 10, 10, 8, 16, 14, 8, 12, 0, 12, 18, 14, 12}
 		if len(g.libFuncs) > 0 {
 			w[15] = 60
 		}
+		if g.file2 != "" {
+			w[16] = 70
+		}
 		switch g.weighted(w, "side") {
+		case 16:
+			n = g.stFuncVar()
+		case 17:
+			n = g.stConvertArg()
+		case 18:
+			n = g.stFuncValueOrder()
+		case 19:
+			n = g.stTupleValueVar()
 		case 0:
 			n = g.stCompoundIdx()
 		case 1:
@@ -531,8 +542,9 @@ func (g *gen) stAppendNilBytes() *Node {
 	})
 }
 
-// stLibFunc: a function of the imported package called directly, t = lib.L0(x), or used as a value:
+// stLibFunc: a function of the imported package called directly, t = lib.L0(x), used as a value:
 // v := lib.L0; t = v(x)        t = (lib.L0)(x)
+// or a variable of function type of that package called through the package selector: t = lib.V0(x)        t = lib.W0()
 func (g *gen) stLibFunc() *Node {
 	t, ok := g.accTarget()
 	if !ok || len(g.libFuncs) == 0 || !g.room(6) {
@@ -540,10 +552,37 @@ func (g *gen) stLibFunc() *Node {
 	}
 	g.noteWrite(t)
 	g.account(4)
-	name := libAlias + "." + g.libFuncs[g.n(len(g.libFuncs), "lf")].Name
+	var fns, vars []*Func
+	for i := range g.libFuncs {
+		if g.libFuncs[i].AsVar {
+			vars = append(vars, &g.libFuncs[i])
+		} else {
+			fns = append(fns, &g.libFuncs[i])
+		}
+	}
+	g.libUsed = true
+	if len(vars) > 0 && g.chance(50) && g.on(kImportedFuncVar) {
+		v := vars[g.n(len(vars), "lv")]
+		call := &Node{K: "call", S: libAlias + "." + v.Name}
+		if len(v.Params) > 0 {
+			arg := fitStore(g.genInt(1))
+			g.noteExpr(arg)
+			call.A = []*Node{arg.n}
+			g.mark("imported-func-var-call")
+		} else {
+			g.mark("imported-func-var-call-noargs")
+		}
+		if v.ViaInit {
+			g.mark("imported-func-var-set-by-init")
+		}
+		if g.chance(30) {
+			return &Node{K: "assign", S: "+=", A: []*Node{t, bin("%", call, ilit(1009))}}
+		}
+		return &Node{K: "assign", S: "=", A: []*Node{t, call}}
+	}
+	name := libAlias + "." + fns[g.n(len(fns), "lf")].Name
 	arg := fitStore(g.genInt(1))
 	g.noteExpr(arg)
-	g.libUsed = true
 	form := g.n(3, "lfk")
 	if form > 0 && !g.on(kImportedFuncVal) {
 		form = 0
